@@ -19,7 +19,17 @@ THEOREMS = ['segIntegral_closed', 'segIntegral_zero', 'firstOrderEntry_exact',
             'ff_fid_eq_frob_sq', 'ff_fid_le', 'ff_fid_re_le', 'ff_fid_offdiag_le',
             'herm_sandwich_apply', 'cm_neg_omega', 'cm_neg_omega_map', 'ff_neg_omega',
             'ff_neg_omega_diag', 'ff_gen_neg_omega', 'firstOrderEntry_zero_x', 'ff_fid_le_sharp']
-LEAN_MODULES = ['FFVerif.Props.C01', 'FFVerif.Props.C01Seg', 'FFVerif.Props.C01Bound']
+LEAN_MODULES = ['FFVerif.Props.C01', 'FFVerif.Props.C01Seg', 'FFVerif.Props.C01Bound', 'FFVerif.Props.C01Unique']
+# module C01Unique: control matrix / filter functions / infidelity do not depend on WHICH eigh output is used
+# (phases, bases of degenerate eigenspaces, order of eigenvalues), for every guard kind and threshold
+THEOREMS = THEOREMS + [
+    'FFVerif.EighUniqueAux.trans_support', 'FFVerif.EighUniqueAux.eigenvalue_mem', 'FFVerif.EighUniqueAux.eigenvalues_perm',
+    'FFVerif.EighUniqueAux.operator_function_unique', 'FFVerif.EighUniqueAux.double_sum_unique', 'FFVerif.EighUniqueAux.quad_sum_unique',
+    'FFVerif.C01.cm_segment_eigh_independent', 'FFVerif.C01.cm_eigh_independent_entry', 'FFVerif.C01.cm_eigh_independent',
+    'FFVerif.C01.cm_eigh_independent_diagonalize', 'FFVerif.C01.cm_eigh_independent_current', 'FFVerif.C01.cm_eigh_independent_error',
+    'FFVerif.C01.Useg_eigh_independent', 'FFVerif.C01.Useg_eq_exp', 'FFVerif.C01.cm_segment_form_exp',
+    'FFVerif.C01.cm_integral_eigh_independent', 'FFVerif.C01.ff_eigh_independent', 'FFVerif.C01.infidelity_eigh_independent',
+    'FFVerif.C01.eigvals_perm', 'FFVerif.C01.szId_eigh', "FFVerif.C01.szId_eigh'"]
 PINS = ['pinControlMatrixFromScratch']
 GEN_SITES = ['const:numeric._first_order_integral',
              'einsum:numeric_calculate_control_matrix_from_scratch_0',
